@@ -19,7 +19,7 @@ def closureWritesOld : CW := [("_select", ["cases"])]
 /-- generators named by the model's statement kinds and by the frame model -/
 def modelledGenerators : List String :=
   ["assign", "add", "lower", "nop", "send", "recv2", "genBuiltinDeferWrapper", "_select", "callBin", "_return",
-   "call", "getFunc", "genFunctionWrapper", "rangeChan", "recv"]
+   "call", "getFunc", "genFunctionWrapperFor", "rangeChan", "recv"]
 
 def goFacts : GoFacts :=
   { goBinArgsCopied := true,
@@ -37,13 +37,14 @@ def goFacts : GoFacts :=
     getFuncNoDefFrameWrite := true,
     cloneLocked := true,
     cloneCopiesData := true,
+    callFrameLocked := true,
     selectDoneLocked := true,
     casesPerStatement := true,
     selectCopiesCases := true,
     callArgStores := ["dest[i] = genFunctionWrapper(nod)(f)", "dest[i].Set(val)", "vararg.Set(reflect.Append(vararg, v(f)))", "vararg.Set(v(f))"],
     frameCellInits := ["nf.data[i] = reflect.New(def.types[i]).Elem()", "nf.data[i] = v(f)", "nf.data[numRet+i] = reflect.New(t).Elem()"],
     goStmts := ["call: go callf(in)", "call: go runCfg(def.child[3].start, nf, def, n)"],
-    newFrameCalls := ["call: nf := newFrame(f, len(def.types), f.runid())", "genFunctionWrapper: fr := newCallFrame(f, len(def.types))", "getFunc: fr2 := newCallFrame(fr, len(n.types))"],
+    newFrameCalls := ["call: nf := newFrame(f, len(def.types), f.runid())", "genFunctionWrapper: fr := newCallFrame(n.interp, f, len(def.types), e)", "getFunc: fr2 := newCallFrame(n.interp, fr, len(n.types), fr.getEpoch())"],
     goValueArgLoop := ["value := v(f)", "in[i] = reflect.New(value.Type()).Elem()", "in[i].Set(value)"],
     goValueArgKinds := [],
     callBinGoArgLoop := ["in[i] = copyDeferArg(getBinValue(getMapType, v, f))"],
@@ -52,16 +53,17 @@ def goFacts : GoFacts :=
     srcArgKinds := ["reflect.Interface"] }
 
 /-- fingerprints of the functions transcribed by Model/Conc.lean (`_select`, `clauseChanDir`) and
-    Model/ConcFrames.lean (`getFunc`, `frame.clone`, `newFrame`, `copyDeferArg`: reflect.New(t).Elem() + Set; `newCallFrame`: newFrame with the root's run id and done channel;
+    Model/ConcFrames.lean (`getFunc`, `frame.clone`, `newFrame`, `copyDeferArg`: reflect.New(t).Elem() + Set; `newCallFrame`: a frame whose anc is the given frame (the clone / the wrapper's frame), with the interpreter's current
+    run id and done channel read under interp.mutex, and the epoch of the function value; `newFrame` and `frame.clone` carry the epoch;
     `genValueRecv`: a receiver without node is the constant `n.recv.val`, not a frame read) -/
 def sourceHashes : List (String × String) :=
   [("_select", "cd8dc2eaadeedc62"),
    ("clauseChanDir", "16908262bfe9789f"),
-   ("getFunc", "767f1bf470b0d0fd"),
-   ("frame.clone", "ccd71f62c6588b0a"),
-   ("newFrame", "da1db819d5067f56"),
+   ("getFunc", "b1cec79847c23ec5"),
+   ("frame.clone", "288c927fcf00073e"),
+   ("newFrame", "8d3a53ebf9cf8afa"),
    ("copyDeferArg", "d8586ba1ea695e54"),
-   ("newCallFrame", "43aa5e7f13021a5b"),
+   ("newCallFrame", "40f1e0d7f7a1dce0"),
    ("genValueRecv", "a3dad7fc975e9eb7")]
 
 end YaegiVerif.Expected.C08
